@@ -24,6 +24,15 @@ theorem Reach.trans {g : Graph V} {i j k : Nat} (h1 : Reach g i j) (h2 : Reach g
   | refl => exact h2
   | step hs hd _ ih => exact .step hs hd (ih h2)
 
+theorem Reach.of_static {g g' : Graph V} (hs : SameStatic g' g) {i k : Nat} (h : Reach g i k) : Reach g' i k := by
+  induction h with
+  | refl => exact .refl _
+  | @step i s d _ hsi hd _ ih =>
+    have h1 := hs i
+    rw [hsi] at h1
+    obtain ⟨t, ht, -, -, -, hdeps⟩ := StaticEq.struct_left h1
+    exact .step ht (hdeps ▸ hd) ih
+
 /-- `Outdated` looks only at the cone (fuel level, no guard needed) -/
 theorem outdated_congr_cone (f : Nat) (g g' : Graph V) (k : Nat)
     (h : ∀ j, Reach g k j → g' j = g j) : outdated f g' k = outdated f g k := by
@@ -258,6 +267,7 @@ structure EvalOK (g : Graph V) (i : Nat) (r : Graph V × Log) : Prop where
   fresh : Outdated r.1 i = false
   frame : ∀ k, i < k → r.1 k = g k
   logOut : ∀ e ∈ r.2, Outdated g e.1 = true ∧ e.1 ≤ i
+  logCone : ∀ e ∈ r.2, Reach g i e.1
   count : ∀ k, ver r.1 k = ver g k + cnt r.2 k
 
 structure PullOK (g : Graph V) (i : Nat) (ds : List Nat) (r : Graph V × List V × Log) : Prop where
@@ -267,6 +277,7 @@ structure PullOK (g : Graph V) (i : Nat) (ds : List Nat) (r : Graph V × List V 
   vals : r.2.1 = ds.map (Spec g)
   frame : ∀ k, i ≤ k → r.1 k = g k
   logOut : ∀ e ∈ r.2.2, Outdated g e.1 = true ∧ e.1 < i
+  logCone : ∀ e ∈ r.2.2, ∃ d ∈ ds, Reach g d e.1
   count : ∀ k, ver r.1 k = ver g k + cnt r.2.2 k
 
 theorem pull_ok (i : Nat) (ih : ∀ d, d < i → ∀ g : Graph V, Inv g → EvalOK g d (Eval g d))
@@ -274,13 +285,13 @@ theorem pull_ok (i : Nat) (ih : ∀ d, d < i → ∀ g : Graph V, Inv g → Eval
     PullOK g i ds (pull Eval g ds) := by
   induction ds generalizing g with
   | nil =>
-    exact ⟨hinv, Evolves.refl g, by simp, rfl, fun _ _ => rfl, by simp [pull], by simp [pull, cnt]⟩
+    exact ⟨hinv, Evolves.refl g, by simp, rfl, fun _ _ => rfl, by simp [pull], by simp [pull], by simp [pull, cnt]⟩
   | cons d ds ihds =>
     have hd : d < i := hds d (List.mem_cons_self ..)
     have h1 := ih d hd g hinv
     have h2 := ihds (fun e he => hds e (List.mem_cons_of_mem _ he)) (Eval g d).1 h1.inv
     simp only [pull]
-    refine ⟨h2.inv, Evolves.trans hinv.wf h1.evo h2.evo, ?_, ?_, ?_, ?_, ?_⟩
+    refine ⟨h2.inv, Evolves.trans hinv.wf h1.evo h2.evo, ?_, ?_, ?_, ?_, ?_, ?_⟩
     · intro e he
       rcases List.mem_cons.1 he with rfl | he
       · exact Outdated_stable h1.inv.wf h2.evo.keep h1.fresh
@@ -304,6 +315,12 @@ theorem pull_ok (i : Nat) (ih : ∀ d, d < i → ∀ g : Graph V, Inv g → Eval
         cases ho : Outdated g e.1 with
         | true => rfl
         | false => rw [Outdated_stable hinv.wf h1.evo.keep ho] at this; exact absurd this.1 (by simp)
+    · intro e he
+      dsimp only at he
+      rcases List.mem_append.1 he with he | he
+      · exact ⟨d, List.mem_cons_self .., h1.logCone e he⟩
+      · obtain ⟨d', hd', hr⟩ := h2.logCone e he
+        exact ⟨d', List.mem_cons_of_mem _ hd', hr.of_static h1.evo.static.symm⟩
     · intro k
       dsimp only
       rw [h2.count k, h1.count k, cnt_append]
@@ -315,7 +332,7 @@ theorem Eval_ok (i : Nat) : ∀ g : Graph V, Inv g → EvalOK g i (Eval g i) := 
     intro g hinv
     have hwf := hinv.wf
     have trivialCase : Outdated g i = false → EvalOK g i (g, []) := fun ho =>
-      ⟨hinv, Evolves.refl g, ho, fun _ _ => rfl, by simp, by simp [cnt]⟩
+      ⟨hinv, Evolves.refl g, ho, fun _ _ => rfl, by simp, by simp, by simp [cnt]⟩
     rw [Eval_eq g hwf]
     cases hs : g i with
     | param x v => exact trivialCase (Outdated_param hs)
@@ -373,7 +390,7 @@ theorem Eval_ok (i : Nat) : ∀ g : Graph V, Inv g → EvalOK g i (Eval g i) := 
             intro d hd
             rw [hverd d hd]
             exact Nat.le_refl _
-        refine ⟨hinv', ⟨hstat, ?_, ?_⟩, hfresh', ?_, ?_, ?_⟩
+        refine ⟨hinv', ⟨hstat, ?_, ?_⟩, hfresh', ?_, ?_, ?_, ?_⟩
         · intro k hk
           have hki : k ≠ i := by intro h; subst h; rw [ho] at hk; cases hk
           dsimp only
@@ -394,6 +411,14 @@ theorem Eval_ok (i : Nat) : ∀ g : Graph V, Inv g → EvalOK g i (Eval g i) := 
           · simp only [List.mem_singleton] at he
             subst he
             exact ⟨ho, Nat.le_refl _⟩
+        · intro e he
+          dsimp only at he
+          rcases List.mem_append.1 he with he | he
+          · obtain ⟨d, hd, hr⟩ := hp.logCone e he
+            exact .step hs hd hr
+          · simp only [List.mem_singleton] at he
+            subst he
+            exact .refl _
         · intro k
           dsimp only
           rw [cnt_append]
